@@ -617,7 +617,13 @@ class SArr(_ND):
         return self.max(axis=axis) - self.min(axis=axis)
 
     def tobytes(self, *a, **k):
-        raise Unsupported("tobytes of symbolic array")
+        # content of a symbolic array as bytes: an injective image of its term list, so
+        # a content hash over it changes exactly when a term changes (syntactically)
+        core.ctx().trusted.add("tobytes of a symbolic array: injective encoding of its element terms (content hashes are functions of the terms)")
+        parts = [str(self.ldt), str(self.shape)]
+        for e in self.view(_ND).flat:
+            parts.append(_canon_elem(e))
+        return ("\x00sym:" + "|".join(parts)).encode("utf-8")
 
     def __repr__(self):
         return "SArr(%s, ldt=%s)" % (self.view(_ND).tolist(), self.ldt)
@@ -943,6 +949,22 @@ def _det(a):
     return wrap(out, rnp.float64)
 
 
+def _canon_elem(e):
+    """canonical text of one element (simplified term, or the float value)"""
+    if is_sym(e):
+        t = z3.simplify(e.t)
+        if z3.is_rational_value(t):
+            return repr(float(t.as_fraction()))
+        if z3.is_int_value(t):
+            return repr(float(t.as_long()))
+        return t.sexpr()
+    if isinstance(e, (bool, rnp.bool_)):
+        return repr(bool(e))
+    if isinstance(e, (int, float, rnp.integer, rnp.floating)):
+        return repr(float(e))
+    return repr(e)
+
+
 def _inv(a):
     """assumed contract of numpy.linalg.inv: for det != 0 the result X has A.X = X.A = I"""
     a = to_sarr(a)
@@ -954,6 +976,10 @@ def _inv(a):
     c = core.ctx()
     c.trusted.add("numpy.linalg.inv: A nonsingular => A.X = X.A = I (assumed contract)")
     n = p.shape[0]
+    # inv is a function: the same argument terms give the same result symbols
+    mkey = ("inv",) + tuple(_canon_elem(e) for e in p.flat)
+    if mkey in c.memo:
+        return wrap(c.memo[mkey].copy(), rnp.float64)
     X = rnp.empty((n, n), dtype=object)
     affine = all((not is_sym(p[n - 1, j])) and p[n - 1, j] == (1 if j == n - 1 else 0) for j in range(n))
     for i in range(n):
@@ -974,7 +1000,9 @@ def _inv(a):
                 if e is True:
                     continue
                 eqs.append(core.tobool(e))
-    c.axiom(z3.Implies(core.tobool(d != 0), z3.And(*eqs)))
+    if not c.memo.get("opaque_inverse"):
+        c.axiom(z3.Implies(core.tobool(d != 0), z3.And(*eqs)))
+    c.memo[mkey] = X.copy()
     return wrap(X, rnp.float64)
 
 
